@@ -54,7 +54,7 @@ package calendar
 //@ axiom tableAx(y int) [C06 C01 C05]
 //@   requires 1 <= y && y <= 9999
 //@   ensures all(0, 13, func(i int) bool { return mF(y, i+1) == mF(y, i)+mD(y, i) })
-//@   ensures all(0, 14, func(i int) bool { return 28 <= mD(y, i) && mD(y, i) <= 30 && y-1 <= mY(y, i) && mY(y, i) <= y+1 })
+//@   ensures all(0, 14, func(i int) bool { return 28 <= mD(y, i) && mD(y, i) <= 30 && y-1 <= mY(y, i) && mY(y, i) <= y+1 && mM(y, i) != 0 && -12 <= mM(y, i) && mM(y, i) <= 12 })
 //@   ensures jdn(y-1, 11, 1) <= mF(y, 0) && mF(y, 0) <= jdn(y, 1, 1) && jdn(y, 12, 31) < mF(y, 14)+mD(y, 14) && mF(y, 14)+mD(y, 14) <= jdn(y+1, 4, 1)
 //@   ensures all(0, 13, func(i int) bool { return mY(y, i) <= mY(y, i+1) })
 //@   domain y 1 9999
@@ -138,7 +138,7 @@ package calendar
 //@ type LunarYear established_by NewLunarYear LunarYear.compute
 //@   shape months list 15 *LunarMonth
 //@   shape jieQiJulianDays slice 31
-//@   invariant isTable(self)
+//@   invariant isTable(self) && 0 <= self.year && self.year <= 9999 && self.ganIndex == modf(self.year-4, 10) && self.zhiIndex == modf(self.year-4, 12)
 
 //@ func NewLunarYear(lunarYear int) *LunarYear [C06 C01]
 //@   trusted
@@ -334,7 +334,7 @@ package calendar
 //@ spec func inTable(l *Lunar) bool
 //@   = l.year == mYat(l.solar.year, midx(l.solar.year, sjdn(l.solar))) && l.month == mMat(l.solar.year, midx(l.solar.year, sjdn(l.solar))) &&
 //@     l.day == sjdn(l.solar)-mFat(l.solar.year, midx(l.solar.year, sjdn(l.solar)))+1 && 1 <= l.day && l.day <= mDat(l.solar.year, midx(l.solar.year, sjdn(l.solar))) &&
-//@     l.solar.year-1 <= l.year && l.year <= l.solar.year+1
+//@     l.solar.year-1 <= l.year && l.year <= l.solar.year+1 && l.day <= 30 && l.month != 0 && -12 <= l.month && l.month <= 12
 
 //@ # Every Lunar in circulation: its civil date-time, its place in the month table of the civil year, the term table of
 //@ # that year, and every pillar index equal to its specification.
@@ -356,7 +356,7 @@ package calendar
 //@   use jdnMono(solar.year, solar.month, solar.day, solar.year, 1, 1)
 //@   hint lunarYear#2: lunarYear == mYat(solar.year, midx(solar.year, sjdn(solar))) && lunarMonth == mMat(solar.year, midx(solar.year, sjdn(solar))) &&
 //@                     lunarDay == sjdn(solar)-mFat(solar.year, midx(solar.year, sjdn(solar)))+1 && 1 <= lunarDay && lunarDay <= mDat(solar.year, midx(solar.year, sjdn(solar))) &&
-//@                     solar.year-1 <= lunarYear && lunarYear <= solar.year+1
+//@                     solar.year-1 <= lunarYear && lunarYear <= solar.year+1 && lunarDay <= 30 && lunarMonth != 0 && -12 <= lunarMonth && lunarMonth <= 12
 //@   split midx(solar.year, sjdn(solar)) in 0..14
 
 //@ # index of the first entry of table y naming lunar month (y, m); 15 when there is none
@@ -679,7 +679,7 @@ package calendar
 //@ # ================================================================ C08: every exported zero-argument accessor is total
 //@ # Safety-only contracts: under the receiver's type invariant the method returns without panicking - every index is
 //@ # in range, no nil dereference, no failing type assertion, no division by zero, every callee precondition holds.
-//@ sweep Solar: inYears(self.year) [C08]
+//@ sweep Solar: 1 <= self.year && self.year <= 9998 [C08]
 //@ sweep SolarWeek: weekOK(self) && jdnInRange(jdn(self.year, self.month, self.day)-6) && jdnInRange(jdn(self.year, self.month, self.day)+6) [C08]
 //@ sweep SolarMonth: inYears(self.year) && 1 <= self.month && self.month <= 12 [C08]
 //@ sweep SolarSeason: inYears(self.year) && 1 <= self.month && self.month <= 12 [C08]
